@@ -111,7 +111,7 @@ Proof.
       intros q d Hq. rewrite <- app_assoc. apply Hinv. cbn [pval_at app subschema_at]. rewrite El.
       destruct v' as [c0| |l0|m0|]; cbn [pval_at] in Hq; try discriminate; try exact Hq;
         destruct q as [|[k|i] q']; try discriminate; exact Hq.
-    + destruct (parse_index sg) as [n|]; [|discriminate]. destruct (nth_error l n) as [c0|] eqn:En; [|discriminate].
+    + destruct (index_below sg (length l)) as [n|]; [|discriminate]. destruct (nth_error l n) as [c0|] eqn:En; [|discriminate].
       apply (IH (PSchema c0) (path ++ [SIdx n]) root p c); [|exact H].
       intros q d Hq. rewrite <- app_assoc. apply Hinv. cbn [pval_at app]. now rewrite En.
     + destruct (lookup sg m) as [c0|] eqn:El; [|discriminate].
@@ -183,13 +183,21 @@ Theorem parse_index_digits n : parse_index (digits n) = Some n.
 Proof.
   unfold digits.
   destruct (digits_fuel_spec (S (N.to_nat (N.log2 (N.of_nat n)))) (N.of_nat n)) as (H1 & H2 & H3 & H4); [apply Nat.lt_succ_diag_r|].
-  unfold parse_index. destruct (digits_fuel _ (N.of_nat n)) as [|c r] eqn:E; [contradiction|].
+  unfold parse_index, index_N. destruct (digits_fuel _ (N.of_nat n)) as [|c r] eqn:E; [contradiction|].
   rewrite H2. cbn [negb].
   destruct r as [|c' r'].
-  - rewrite andb_false_r. f_equal. change (fold_left _ [c] 0%N) with (dval [c]). rewrite H1. apply Nat2N.id.
+  - rewrite andb_false_r. cbn [option_map]. f_equal. change (fold_left _ [c] 0%N) with (dval [c]). rewrite H1. apply Nat2N.id.
   - assert (Hc : N.eqb c c_0 = false) by (apply N.eqb_neq; apply (H4 c (c' :: r') eq_refl); discriminate).
-    rewrite Hc. cbn [andb]. f_equal. change (fold_left _ (c :: c' :: r') 0%N) with (dval (c :: c' :: r')).
+    rewrite Hc. cbn [andb option_map]. f_equal. change (fold_left _ (c :: c' :: r') 0%N) with (dval (c :: c' :: r')).
     rewrite H1. apply Nat2N.id.
+Qed.
+
+(** [index_below] is [parse_index] followed by the bound check *)
+Lemma index_below_spec s len :
+  index_below s len = match parse_index s with Some n => if Nat.ltb n len then Some n else None | None => None end.
+Proof.
+  unfold index_below, parse_index. destruct (index_N s) as [n|]; [|reflexivity]. cbn [option_map].
+  destruct (N.ltb_spec n (N.of_nat len)), (Nat.ltb_spec (N.to_nat n) len); try reflexivity; lia.
 Qed.
 
 (** the reference tokens of a location *)
@@ -212,7 +220,10 @@ Proof.
         rewrite (IH (SKey k :: r') ltac:(cbn; lia) (PMap m) (path ++ [SKey f]) c H). now rewrite <- app_assoc.
     + discriminate.
   - destruct p as [|[k|i] r]; try discriminate. cbn [pval_at map deref_walk token] in *.
-    rewrite parse_index_digits. destruct (nth_error l i) as [c0|]; [|discriminate].
+    destruct (nth_error l i) as [c0|] eqn:En; [|discriminate].
+    rewrite index_below_spec, parse_index_digits.
+    assert (Hlt : Nat.ltb i (length l) = true) by (apply Nat.ltb_lt, nth_error_Some; congruence).
+    rewrite Hlt, En.
     rewrite (IH r ltac:(cbn; lia) (PSchema c0) (path ++ [SIdx i]) c H). now rewrite <- app_assoc.
   - destruct p as [|[k|i] r]; try discriminate. cbn [pval_at map deref_walk token] in *.
     destruct (lookup k m) as [c0|]; [|discriminate].
